@@ -4,12 +4,25 @@ use hx_common::Rng;
 use std::collections::HashMap;
 use std::fmt::Write as _;
 
+/// what the error-boundary part of the generator may still produce (see `eview`)
+#[derive(Clone)]
+struct Ev {
+    /// inside the children of a boundary
+    in_eb: bool,
+    /// `Result` leaves still allowed below the current boundary
+    budget: usize,
+    /// the full class (see `generate`)
+    full: bool,
+}
+
 struct G {
     r: Rng,
     defs: Vec<Def>,
     /// scope ids handed out in the current case; those of component-local signals
     next_sid: u32,
     sig_sids: Vec<u32>,
+    /// the implementation unregisters dropped errors and gives errors ids of their own (see `eview`)
+    eb_full: bool,
 }
 
 /// the component-local state visible at the place being generated (one effect level: see `xview`)
@@ -259,6 +272,18 @@ impl G {
         self.xregion_at(depth, in_row, false)
     }
 
+    /// a row of a `<ForEnumerate>`: it shows its index (the row's outermost state) and goes on like any row
+    fn xrow_enum(&mut self, depth: usize) -> ViewD {
+        let mut lc = Lc { in_row: true, locals: vec![false], used: vec![false], ..Default::default() };
+        let head = match self.r.below(3) {
+            0 => ViewD::DynText(Expr::Loc(0)),
+            1 => ViewD::DynText(Expr::Add(Box::new(Expr::Loc(0)), Box::new(Expr::Key))),
+            _ => ViewD::Elem("b", vec![AttrD::Dyn("title", Expr::Loc(0))], Box::new(ViewD::DynText(Expr::Loc(0)))),
+        };
+        let rest = if self.r.chance(1, 2) { self.xscope(depth, &mut lc) } else { self.xview(depth, &mut lc) };
+        ViewD::Seq(Box::new(head), Box::new(rest))
+    }
+
     fn xregion_at(&mut self, depth: usize, in_row: bool, root: bool) -> ViewD {
         let mut lc = Lc { in_row, root, ..Default::default() };
         // most regions start with a body of their own
@@ -320,7 +345,11 @@ impl G {
             _ => {
                 let sel = self.xexpr(lc);
                 let lists = self.xlists();
-                ViewD::Elem("ul", self.xattrs(lc), Box::new(ViewD::ForR(sel, lists, Box::new(self.xregion(depth - 1, true)))))
+                if self.r.chance(1, 2) {
+                    ViewD::Elem("ul", self.xattrs(lc), Box::new(ViewD::ForE(sel, lists, Box::new(self.xrow_enum(depth - 1)))))
+                } else {
+                    ViewD::Elem("ul", self.xattrs(lc), Box::new(ViewD::ForR(sel, lists, Box::new(self.xregion(depth - 1, true)))))
+                }
             }
         }
     }
@@ -333,13 +362,139 @@ impl G {
                 let mut lc = Lc { root: true, ..Default::default() };
                 let sel = self.dyn_expr();
                 let lists = self.xlists();
-                let list = ViewD::Elem("ul", vec![], Box::new(ViewD::ForR(sel, lists, Box::new(self.xregion(depth.saturating_sub(1), true)))));
+                let list = if self.r.chance(1, 2) {
+                    ViewD::Elem("ul", vec![], Box::new(ViewD::ForE(sel, lists, Box::new(self.xrow_enum(depth.saturating_sub(1))))))
+                } else {
+                    ViewD::Elem("ul", vec![], Box::new(ViewD::ForR(sel, lists, Box::new(self.xregion(depth.saturating_sub(1), true)))))
+                };
                 match self.r.below(3) {
                     0 => list,
                     1 => ViewD::Seq(Box::new(self.xview(depth.saturating_sub(1), &mut lc)), Box::new(list)),
                     _ => ViewD::Seq(Box::new(list), Box::new(self.xregion_at(depth.saturating_sub(1), false, true))),
                 }
             }
+        }
+    }
+
+    // ---------------------------------------------------------------- error boundaries
+    //
+    // `eb <view>` with `res <c> <x>` leaves (`Err` while `c != 0`) anywhere below it: directly, in branches of
+    // `Either` / `Show` that a later re-run creates, in rows that a later re-run adds, below a nested boundary.
+    // The FULL class needs two repairs of the real code (props/C04.known F-C04-3 / F-C04-4, hooks/fix-c04-3.patch,
+    // hooks/fix-c04-4.patch): an error must be unregistered when its `ResultState` is dropped by a task, and two
+    // errors of one boundary must not share an id.  `generate` probes the implementation it is linked with for
+    // both; while either is missing, the generated boundaries stay inside the class the unrepaired code gets
+    // right (`Ev::full == false`): one `res` leaf per boundary, not inside a row, histories `set; idle`, and no
+    // write that can drop the leaf while it is in error (`legacy_ok`).
+
+    fn res_cond(&mut self, in_row: bool) -> Expr {
+        let sigs = sig_ids(&self.defs);
+        let rd = if in_row && self.r.chance(1, 2) { Expr::Key } else { Expr::Rd(*self.r.pick(&sigs)) };
+        match self.r.below(5) {
+            0 => rd,
+            1 => Expr::Ite(Box::new(rd), Box::new(Expr::Lit(0)), Box::new(Expr::Lit(1))),
+            2 | 3 => Expr::Add(Box::new(rd), Box::new(Expr::Lit(-(self.r.below(3) as i64)))),
+            _ => {
+                let other = if in_row { Expr::Key } else { self.leaf() };
+                Expr::Ite(Box::new(rd), Box::new(other), Box::new(Expr::Lit(0)))
+            }
+        }
+    }
+
+    fn res_leaf(&mut self, in_row: bool) -> ViewD {
+        let x = self.dyn_expr();
+        let x = if in_row && self.r.chance(1, 2) { Expr::Add(Box::new(x), Box::new(Expr::Key)) } else { x };
+        ViewD::Res(self.res_cond(in_row), x)
+    }
+
+    /// a row of a list below a boundary: it reads its key; no component-local state
+    fn erow(&mut self, depth: usize, ev: &mut Ev) -> ViewD {
+        let mut parts = vec![self.res_leaf(true)];
+        if self.r.chance(1, 2) {
+            let e = self.dyn_expr();
+            parts.push(ViewD::DynText(Expr::Add(Box::new(e), Box::new(Expr::Key))));
+        }
+        if depth > 0 && self.r.chance(1, 3) {
+            let c = Expr::Add(Box::new(self.dyn_expr()), Box::new(Expr::Key));
+            parts.push(ViewD::Show(c, Box::new(self.eview(depth - 1, ev)), Box::new(self.eview(depth - 1, ev))));
+        }
+        if self.r.chance(1, 2) {
+            parts.reverse();
+        }
+        let mut v = parts.pop().unwrap();
+        while let Some(p) = parts.pop() {
+            v = ViewD::Seq(Box::new(p), Box::new(v));
+        }
+        if self.r.chance(1, 3) { ViewD::Elem("b", self.attrs(), Box::new(v)) } else { v }
+    }
+
+    fn eview(&mut self, depth: usize, ev: &mut Ev) -> ViewD {
+        let can_res = ev.budget > 0;
+        if depth == 0 {
+            return match self.r.below(5) {
+                0 => ViewD::Text(self.word()),
+                1 => ViewD::Unit,
+                2 => ViewD::DynText(self.dyn_expr()),
+                _ if can_res => {
+                    ev.budget -= 1;
+                    self.res_leaf(false)
+                }
+                _ => ViewD::DynText(self.dyn_expr()),
+            };
+        }
+        match self.r.below(16) {
+            0 => ViewD::Text(self.word()),
+            1 => ViewD::DynText(self.dyn_expr()),
+            2 | 3 if can_res => {
+                ev.budget -= 1;
+                self.res_leaf(false)
+            }
+            2 | 3 => ViewD::DynText(self.dyn_expr()),
+            4 => ViewD::Elem(*self.r.pick(TAGS), self.attrs(), Box::new(self.eview(depth - 1, ev))),
+            5 | 6 => ViewD::Seq(Box::new(self.eview(depth - 1, ev)), Box::new(self.eview(depth - 1, ev))),
+            7 | 8 => ViewD::Either(self.cond_expr(), Box::new(self.eview(depth - 1, ev)), Box::new(self.eview(depth - 1, ev))),
+            9 | 10 | 11 => ViewD::Show(self.cond_expr(), Box::new(self.eview(depth - 1, ev)), Box::new(self.eview(depth - 1, ev))),
+            12 | 13 if ev.full || !ev.in_eb => {
+                // a (nested) boundary
+                let mut inner = Ev { in_eb: true, budget: if ev.full { 6 } else { 1 }, full: ev.full };
+                ViewD::Eb(Box::new(self.eview(depth - 1, &mut inner)))
+            }
+            14 if ev.full => {
+                let lists = self.xlists();
+                let sel = self.dyn_expr();
+                ViewD::Elem("ul", vec![], Box::new(ViewD::ForR(sel, lists, Box::new(self.erow(depth - 1, ev)))))
+            }
+            15 => {
+                let lists = self.xlists();
+                ViewD::Elem("ul", vec![], Box::new(ViewD::For(self.dyn_expr(), lists)))
+            }
+            _ => ViewD::Seq(Box::new(self.eview(depth - 1, ev)), Box::new(self.eview(depth - 1, ev))),
+        }
+    }
+
+    /// a mounted view with an error boundary near its top
+    fn etop(&mut self, depth: usize, full: bool) -> ViewD {
+        let mut inner = Ev { in_eb: true, budget: if full { 6 } else { 1 }, full };
+        let mut kid = self.eview(depth, &mut inner);
+        if inner.budget == (if full { 6 } else { 1 }) {
+            // no `Result` leaf yet: put one behind a condition, where a later re-run creates it
+            let leaf = self.res_leaf(false);
+            let other = if self.r.chance(1, 2) { ViewD::Text(self.word()) } else { ViewD::Unit };
+            let guarded = if self.r.chance(2, 3) {
+                ViewD::Show(self.cond_expr(), Box::new(leaf), Box::new(other))
+            } else {
+                ViewD::Either(self.cond_expr(), Box::new(other), Box::new(leaf))
+            };
+            kid = ViewD::Seq(Box::new(kid), Box::new(guarded));
+        }
+        let eb = ViewD::Eb(Box::new(kid));
+        let mut outer = Ev { in_eb: false, budget: if full { 2 } else { 0 }, full };
+        match self.r.below(6) {
+            0 | 1 => eb,
+            2 => ViewD::Elem(*self.r.pick(TAGS), self.attrs(), Box::new(eb)),
+            3 => ViewD::Seq(Box::new(self.eview(depth.saturating_sub(1), &mut outer)), Box::new(eb)),
+            4 => ViewD::Show(self.cond_expr(), Box::new(eb), Box::new(self.eview(depth.saturating_sub(1), &mut outer))),
+            _ => ViewD::Either(self.cond_expr(), Box::new(self.eview(depth.saturating_sub(1), &mut outer)), Box::new(eb)),
         }
     }
 
@@ -371,16 +526,66 @@ impl G {
 fn has_susp(v: &ViewD) -> bool {
     match v {
         ViewD::Susp(..) => true,
-        ViewD::Text(_) | ViewD::Unit | ViewD::DynText(_) | ViewD::For(..) => false,
-        ViewD::Elem(_, _, k) | ViewD::Errb(_, k) | ViewD::ForR(_, _, k) | ViewD::Scope(_, _, k) => has_susp(k),
+        ViewD::Text(_) | ViewD::Unit | ViewD::DynText(_) | ViewD::For(..) | ViewD::Res(..) => false,
+        ViewD::Elem(_, _, k) | ViewD::Errb(_, k) | ViewD::ForR(_, _, k) | ViewD::ForE(_, _, k) | ViewD::Scope(_, _, k) | ViewD::Eb(k) => has_susp(k),
         ViewD::Seq(a, b) | ViewD::Either(_, a, b) | ViewD::Show(_, a, b) => has_susp(a) || has_susp(b),
     }
+}
+
+fn has_eb(v: &ViewD) -> bool {
+    match v {
+        ViewD::Eb(..) | ViewD::Res(..) => true,
+        ViewD::Text(_) | ViewD::Unit | ViewD::DynText(_) | ViewD::For(..) => false,
+        ViewD::Elem(_, _, k) | ViewD::Errb(_, k) | ViewD::Susp(_, k) | ViewD::ForR(_, _, k) | ViewD::ForE(_, _, k) | ViewD::Scope(_, _, k) => has_eb(k),
+        ViewD::Seq(a, b) | ViewD::Either(_, a, b) | ViewD::Show(_, a, b) => has_eb(a) || has_eb(b),
+    }
+}
+
+/// every `res` leaf below a boundary with the conditions (and the side it is on) between it and that boundary
+fn res_chains(v: &ViewD, chain: &mut Vec<(Expr, bool)>, in_eb: bool, out: &mut Vec<(Vec<(Expr, bool)>, Expr)>) {
+    match v {
+        ViewD::Text(_) | ViewD::Unit | ViewD::DynText(_) | ViewD::For(..) => {}
+        ViewD::Res(c, _) => {
+            if in_eb {
+                out.push((chain.clone(), c.clone()))
+            }
+        }
+        ViewD::Eb(k) => res_chains(k, &mut vec![], true, out),
+        ViewD::Elem(_, _, k) | ViewD::Errb(_, k) | ViewD::Susp(_, k) | ViewD::ForR(_, _, k) | ViewD::ForE(_, _, k) | ViewD::Scope(_, _, k) => {
+            res_chains(k, chain, in_eb, out)
+        }
+        ViewD::Seq(a, b) => {
+            res_chains(a, chain, in_eb, out);
+            res_chains(b, chain, in_eb, out)
+        }
+        ViewD::Either(c, a, b) | ViewD::Show(c, a, b) => {
+            chain.push((c.clone(), true));
+            res_chains(a, chain, in_eb, out);
+            chain.pop();
+            chain.push((c.clone(), false));
+            res_chains(b, chain, in_eb, out);
+            chain.pop();
+        }
+    }
+}
+
+/// the unrepaired code never unregisters the error of a `Result` state that is dropped while it is `Err`: a write
+/// to `sig` is inside the class it gets right if no leaf that exists and is in error (for the values `env` before
+/// the write) sits below a condition that reads `sig`
+fn legacy_ok(defs: &[Def], env: &[i64], view: &ViewD, sig: usize) -> bool {
+    let mut leaves = vec![];
+    res_chains(view, &mut vec![], false, &mut leaves);
+    leaves.iter().all(|(chain, c)| {
+        let dropped = chain.iter().any(|(e, _)| reads_of(defs, e).contains(&sig));
+        let present = chain.iter().all(|(e, side)| (eval_pure(defs, env, e) != 0) == *side);
+        !(dropped && present && eval_pure(defs, env, c) != 0)
+    })
 }
 
 /// a `<For>` sits in the region of the mounted view itself
 fn root_has_for(v: &ViewD) -> bool {
     match v {
-        ViewD::For(..) | ViewD::ForR(..) => true,
+        ViewD::For(..) | ViewD::ForR(..) | ViewD::ForE(..) => true,
         ViewD::Elem(_, _, k) | ViewD::Scope(_, _, k) => root_has_for(k),
         ViewD::Seq(a, b) => root_has_for(a) || root_has_for(b),
         _ => false,
@@ -421,14 +626,23 @@ fn random_case(g: &mut G, name: &str, out: &mut String) {
     g.next_sid = 0;
     g.sig_sids.clear();
     let xcase = g.r.chance(1, 4);
-    let view = if xcase { g.xtop(depth) } else { g.top_view(depth) };
+    let ecase = !xcase && g.r.chance(1, 4);
+    let view = if xcase {
+        g.xtop(depth)
+    } else if ecase {
+        g.etop(depth, g.eb_full)
+    } else {
+        g.top_view(depth)
+    };
     emit_prog(out, name, &g.defs, &view);
     let sigs = sig_ids(&g.defs);
     let lsigs = g.sig_sids.clone();
     // Suspense: the executor always runs to idle between writes (partial progress of an async derived and
     // of the Suspend future that awaits it is C10's subject: F-C10-1; a disposal while a Suspend future is
     // pending panics in the leftover task, see props/C04.known)
-    let only_idle = has_susp(&view);
+    let legacy = ecase && !g.eb_full;
+    let only_idle = has_susp(&view) || legacy;
+    let mut env: Vec<i64> = g.defs.iter().map(|d| if let Def::Sig(v) = d { *v } else { 0 }).collect();
     match g.r.below(3) {
         0 => writeln!(out, "idle").unwrap(),
         1 if !only_idle => writeln!(out, "poll {}", g.r.below(4)).unwrap(),
@@ -437,7 +651,7 @@ fn random_case(g: &mut G, name: &str, out: &mut String) {
     }
     let writes = g.r.range(3, 15);
     let dispose_at =
-        if g.r.chance(1, 6) && !(xcase && root_has_for(&view)) { Some(g.r.below(writes)) } else { None };
+        if g.r.chance(1, 6) && !(xcase && root_has_for(&view)) && !legacy { Some(g.r.below(writes)) } else { None };
     for w in 0..writes {
         if dispose_at == Some(w) {
             writeln!(out, "dispose").unwrap();
@@ -450,7 +664,12 @@ fn random_case(g: &mut G, name: &str, out: &mut String) {
             continue;
         }
         let s = *g.r.pick(&sigs);
-        writeln!(out, "set {s} {}", g.r.below(5) as i64 - 1).unwrap();
+        if legacy && !legacy_ok(&g.defs, &env, &view, s) {
+            continue;
+        }
+        let v = g.r.below(5) as i64 - 1;
+        env[s] = v;
+        writeln!(out, "set {s} {v}").unwrap();
         if only_idle {
             writeln!(out, "idle").unwrap();
             continue;
@@ -494,10 +713,25 @@ fn small_programs() -> Vec<(Vec<Def>, String)> {
         (vec![Def::Sig(0), Def::Sig(1)], format!("el ul 0 forr R0 3 0,1 0,1,2 2 sc 0 m add R1 K sh V0 sc 1 m mulc 2 R1 dt V0 {}", t("-"))),
         (vec![Def::Sig(1), Def::Sig(0)], format!("sh R0 sc 0 m add R0 R1 seq dt V0 {} {}", t("."), t("no"))),
         (vec![Def::Sig(1), Def::Sig(0)], format!("ei R0 sc 0 m R1 sh V0 {} {} {}", t("a"), t("b"), t("no"))),
+        // <ForEnumerate>: rows that leave and return to their creation index
+        (vec![Def::Sig(0), Def::Sig(1)], "el ul 0 fore add R0 R1 4 0,1,2 1,0,2 3,0,1,2 0,2 seq dt V0 sc 0 m add V0 R1 dt V0".to_string()),
     ]
 }
 
-fn exhaustive_cases(out: &mut String) -> usize {
+/// error boundaries under every schedule (full class only: the schedules drop leaves that are in error)
+fn eb_programs() -> Vec<(Vec<Def>, String)> {
+    let t = |s: &str| format!("t {}", hexs(s));
+    vec![
+        // a leaf that exists from the start, a leaf a `Show` creates later, a second error
+        (vec![Def::Sig(1), Def::Sig(0)], format!("el div 0 eb seq res add R1 L-1 R1 sh R0 res R1 R0 {}", t("closed"))),
+        // rows that are added and removed while they are in error
+        (vec![Def::Sig(0), Def::Sig(1)], "eb el ul 0 forr R0 3 0,1,2 1,2,3 - seq res add K L-1 add R1 K dt R1".to_string()),
+        // a nested boundary; the outer one catches what is outside the inner one
+        (vec![Def::Sig(1), Def::Sig(1)], format!("eb seq ei R0 eb res R1 R0 {} res add R0 R1 R1", t("-"))),
+    ]
+}
+
+fn exhaustive_cases(out: &mut String, eb_full: bool) -> usize {
     let mut count = 0;
     let mut scheds: Vec<Vec<usize>> = vec![vec![]];
     let mut frontier: Vec<Vec<usize>> = vec![vec![]];
@@ -513,7 +747,11 @@ fn exhaustive_cases(out: &mut String) -> usize {
         scheds.extend(next.iter().cloned());
         frontier = next;
     }
-    for (pi, (defs, view)) in small_programs().iter().enumerate() {
+    let mut progs = small_programs();
+    if eb_full {
+        progs.extend(eb_programs());
+    }
+    for (pi, (defs, view)) in progs.iter().enumerate() {
         for (si, sched) in scheds.iter().enumerate() {
             writeln!(out, "case x{pi}-{si}").unwrap();
             for d in defs {
@@ -542,10 +780,28 @@ fn exhaustive_cases(out: &mut String) -> usize {
     count
 }
 
-pub fn generate(seed: u64, n: usize, _tier: &str) -> String {
+/// the probes `generate`'s caller runs on the real code to choose the class of the generated boundaries:
+/// each must end without a failing verdict for the full class
+pub const EB_PROBES: &str = "case probe-drop-in-error
+sig 1
+sig 1
+mount el div 0 eb seq t 61 sh R0 res R1 L7 t 62
+idle
+set 0 0
+idle
+case probe-two-errors
+sig 1
+sig 1
+mount el div 0 eb seq res R0 L1 res R1 L2
+idle
+set 0 0
+idle
+";
+
+pub fn generate(seed: u64, n: usize, _tier: &str, eb_full: bool) -> String {
     let mut out = String::new();
-    let nx = exhaustive_cases(&mut out);
-    let mut g = G { r: Rng::new(seed), defs: vec![], next_sid: 0, sig_sids: vec![] };
+    let nx = exhaustive_cases(&mut out, eb_full);
+    let mut g = G { r: Rng::new(seed), defs: vec![], next_sid: 0, sig_sids: vec![], eb_full };
     for i in 0..n.saturating_sub(nx).max(1) {
         random_case(&mut g, &format!("g{i}"), &mut out);
     }
@@ -654,6 +910,13 @@ fn view_tags(defs: &[Def], v: &ViewD, under_dyn: bool, tags: &mut BTreeSet<&'sta
             tags.insert("for");
             on_expr(sel, tags)
         }
+        ViewD::ForE(sel, _, row) => {
+            tags.insert("for");
+            tags.insert("rows");
+            tags.insert("enumerate");
+            on_expr(sel, tags);
+            view_tags(defs, row, true, tags)
+        }
         ViewD::ForR(sel, _, row) => {
             tags.insert("for");
             tags.insert("rows");
@@ -663,6 +926,15 @@ fn view_tags(defs: &[Def], v: &ViewD, under_dyn: bool, tags: &mut BTreeSet<&'sta
         ViewD::Scope(_, d, kid) => {
             tags.insert(if matches!(d, LDef::Memo(_)) { "local-memo" } else { "local-signal" });
             view_tags(defs, kid, under_dyn, tags)
+        }
+        ViewD::Eb(k) => {
+            tags.insert("errorboundary");
+            view_tags(defs, k, under_dyn, tags)
+        }
+        ViewD::Res(c, e) => {
+            tags.insert("result");
+            on_expr(c, tags);
+            on_expr(e, tags)
         }
         ViewD::Susp(e, a) => {
             tags.insert("suspense");
